@@ -187,6 +187,12 @@ func genC06CatchUp(rt *rapid.T) Case {
 	}
 	steps = append(steps, Step{K: KPartition, A: pow(r)}) // r alone in group 1
 	apart := rapid.IntRange(2, 10).Draw(rt, "apart")
+	if rapid.IntRange(0, 3).Draw(rt, "long-gap") == 0 {
+		// the replica misses MANY blocks, and the event queues are as small as the repository's wiring makes them (100):
+		// catching up commits all of them inside one TryCommit
+		cfg.LoopCap = 100
+		apart = rapid.IntRange(30, 50).Draw(rt, "apart-long")
+	}
 	if rapid.IntRange(0, 2).Draw(rt, "ambiguous") == 0 {
 		// one of the blocks the replica misses has a second reading (see AProposeAmbiguous); whoever fetches it from the
 		// leader gets that one
